@@ -120,10 +120,12 @@ def rule_z4(chk: Check, ix: Index):
     tests = [n for n in own_nodes(f.node) if isinstance(n, ast.If)]
     chk.count("Z4-line-source")
     sel = tests[0] if tests else None
-    ok = sel is not None and norm_stmt(sel.test) in ("self._lines", "not self._path", "self._path") and \
+    ok = sel is not None and norm_stmt(sel.test) in ("not self._path", "self._path", "self._path == ''", "self._path != ''") and \
         any("open(" in norm_stmt(s) for s in ast.walk(sel) if isinstance(s, ast.With))
     chk.require(ok, "Z4-line-source", "Tokenizer.get_lines:selection", f.where,
-                "the two line sources (token cache / file scan) must be selected by whether a path was given")
+                "the two line sources (token cache / file scan) must be selected by whether a path was given — not by whether the "
+                "cache happens to be non-empty: a string source without any token line (`parse_string('', mode='eval')`) has an empty "
+                "cache, and the file branch then opens the path '' (FileNotFoundError)")
     # the cache is filled exactly when no path is given
     pk = ix.get("Tokenizer.peek")
     fills = [n for n in own_nodes(pk.node) if isinstance(n, ast.If) and "not self._path" in norm_stmt(n.test)
